@@ -6,6 +6,7 @@ import (
 	"bytes"
 	"crypto"
 	"crypto/rand"
+	"crypto/rsa"
 	"crypto/sha256"
 	"crypto/x509"
 	"crypto/x509/pkix"
@@ -135,6 +136,33 @@ func c05Types() []c05Type {
 		// so the DER SET OF order differs from the order the signer writes them in
 		{"1.2.2147483647.2147483647.2147483647", encasn1.ObjectIdentifier{1, 2, 2147483647, 2147483647, 2147483647}, der.OID(1, 2, 2147483647, 2147483647, 2147483647)},
 	}
+}
+
+// c05NegativeSerialCerts builds certificates whose serial number INTEGER is negative (first content
+// octet has its top bit set, no leading zero octet). RFC 5280 forbids them, CAs have issued them,
+// and Go parses them; x509.CreateCertificate refuses to make one, so the serial of a certificate
+// made by it is rewritten in the DER and the certificate signed again.
+func c05NegativeSerialCerts(k int) []*x509.Certificate {
+	var out []*x509.Certificate
+	for _, ser := range [][]byte{{0xff}, {0x80}, {0xf1, 0xe2, 0xd3, 0xc4}, {0x80, 0, 0, 0, 0, 0, 0, 0, 0, 0, 0, 0, 0, 0, 0, 0, 0, 0, 0, 1}} {
+		base := keys.Cert(pkix.Name{CommonName: "verif negative serial", Organization: []string{"verif"}}, new(big.Int).SetBytes(append([]byte{0x01}, ser[1:]...)), &keys.K(k).PublicKey, keys.K(k))
+		root, err := der.Parse(base.Raw)
+		if err != nil || len(root.Children) != 3 || len(root.Children[0].Children) < 2 {
+			continue
+		}
+		tbs := root.Children[0]
+		tbs.Children[1].Val = ser // [0] version, then the serial number
+		h := sha256.Sum256(tbs.Encode())
+		sig, err := rsa.SignPKCS1v15(nil, keys.K(k), crypto.SHA256, h[:])
+		if err != nil {
+			continue
+		}
+		root.Children[2].Val = append([]byte{0}, sig...)
+		if c, err := x509.ParseCertificate(root.Encode()); err == nil && c.SerialNumber.Sign() < 0 {
+			out = append(out, c)
+		}
+	}
+	return out
 }
 
 // c05OIDFamily: content-type OIDs under every root (0.x, 1.x, 2.x with a second arc below and
@@ -433,6 +461,15 @@ func c05Run(c *hx.Ctx, tier, unit string) {
 		return
 	}
 	if parts[0] == "oids" {
+		// certificates with a negative serial number (where the platform's X.509 parser accepts them)
+		for _, nc := range c05NegativeSerialCerts(1) {
+			for _, ty := range c05Types()[:2] {
+				if !c.Next() {
+					continue
+				}
+				c05Check(c, 1, nc, ty, c05Content(64, ty.name == "data"), nil, fmt.Sprintf("negative serial %s type=%s", nc.SerialNumber.Text(16), ty.name))
+			}
+		}
 		cert := keys.C(1)
 		for _, ty := range c05OIDFamily() {
 			for _, n := range []int{0, 64} {
